@@ -281,6 +281,46 @@ def truncRaw (d : Dump) (tl : List (List Nat × List (List Nat × Mat))) : Mat :
 def truncWeights (d : Dump) (tl : List (List Nat × List (List Nat × Mat))) : List Rat :=
   vtab d.nc fun r => ((truncContrib d.nf tl r).length : Nat)
 
+/-! ### decidable certificates for the hypotheses of the exactness theorems (evaluated by the driver per case)
+
+The local embedding matrix of a child cell is taken to be the computed local prolongation itself. -/
+
+def Eof (cell : Cell) (ch : Child) : Mat :=
+  match localProl cell.cmap.length ch with
+  | .ok x => x
+  | .error _ => []
+
+/-- nestedness at the cubature points: `φ^c_j(x_k) = Σ_m E_mj φ^f_m(x_k)` on every child cell -/
+def nestedB (d : Dump) : Bool :=
+  d.cells.all fun cell => cell.children.all fun ch =>
+    let e := Eof cell ch
+    ch.pts.all fun p =>
+      (List.range cell.cmap.length).all fun j =>
+        p.c.getD j 0 == sumTo ch.fmap.length fun m => get e m j * p.f.getD m 0
+
+/-- every child cell sees its own local matrix in the rows of the global matrix `pd` (all cells sharing a fine dof
+contribute the same row) -/
+def consB (d : Dump) (pd : Mat) : Bool :=
+  d.cells.all fun cell => cell.children.all fun ch =>
+    let e := Eof cell ch
+    (List.range ch.fmap.length).all fun k => (List.range d.nc).all fun s =>
+      get pd (ch.fmap.getD k 0) s ==
+        sumTo cell.cmap.length fun j => get e k j * (if cell.cmap.getD j 0 = s then 1 else 0)
+
+/-- the refined rule integrates the coarse mass matrix like the unrefined rule: `Σ_children Nᵀ E = M_c` -/
+def intB (d : Dump) : Bool :=
+  d.cells.all fun cell =>
+    let ncl := cell.cmap.length
+    let prods := cell.children.map fun ch =>
+      matMul ncl ch.fmap.length ncl (massCF ncl ch.fmap.length ch.pts) (Eof cell ch)
+    let mc := massC ncl cell.cpts
+    (List.range ncl).all fun l => (List.range ncl).all fun j =>
+      lsum (prods.map fun a => get a l j) == get mc l j
+
+/-- dof-mappings address existing dofs -/
+def mapsB (d : Dump) : Bool :=
+  d.cells.all fun cell => cell.cmap.all (· < d.nc) && cell.children.all fun ch => ch.fmap.all (· < d.nf)
+
 /-! ### the two cell lookups of the assembly loops (mesh permutations) -/
 
 /-- data of one fine mesh cell (mesh numbering): dof-mapping, per cubature point weight·jac_det and fine basis values -/
